@@ -1,7 +1,10 @@
 """tools/save_seed.py <id-lower> <suffix> <json-meta>  -- copy a confirmed seeded change into /verif/seeded/"""
 import json, os, shutil, sys
 sid, suffix, meta = sys.argv[1], sys.argv[2], json.loads(sys.argv[3])
-wt = f"/tmp/seed_{sid}"
+tag = f"seed_{sid}"
+if "_" in sid:  # e.g. seed2_c04
+    tag, sid = sid, sid.split("_", 1)[1]
+wt = f"/tmp/{tag}"
 dst = f"/verif/seeded/{sid.upper()}-{suffix}"
 os.makedirs(dst, exist_ok=True)
 shutil.copy(f"{wt}/patch.diff", f"{dst}/patch.diff")
@@ -10,8 +13,8 @@ meta.setdefault("property", sid.upper())
 meta["confirmed"] = {
     "how": "tools/confirm_seed.sh in a scratch worktree of /repo (outside /repo and /verif): demo exits 1 with the change, 0 without; "
            "existing suite passes with the change",
-    "demo_with_change": open(f"/tmp/confirm_{sid}_with.txt").read()[-600:],
-    "demo_without_change": open(f"/tmp/confirm_{sid}_without.txt").read()[-300:],
+    "demo_with_change": open(f"/tmp/confirm_{tag}_with.txt").read()[-600:],
+    "demo_without_change": open(f"/tmp/confirm_{tag}_without.txt").read()[-300:],
 }
 json.dump(meta, open(f"{dst}/meta.json", "w"), indent=1)
 print("saved", dst)
